@@ -122,6 +122,51 @@ def h_vectorize(ctx, arity):
         ctx.claim('entry_%d_is_operation_of_row_%d' % (i, i), close(out[i], ctx.apply_uf('OP%d' % len(exp), exp)))
 
 
+def h_vectorize_history(ctx, arity):
+    """The same vectorised operation is called twice with different input layouts: the second call must behave
+    as if it were the first (no state carried over), and the caller's `constants` mask must not be modified."""
+    mask_form = ctx.choice('mask_form', 3)        # 0 None, 1 list, 2 tuple
+    declared = [p for p in range(arity) if ctx.flag('declared_const_%d' % p)]
+    mask = None if mask_form == 0 else (list(declared) if mask_form == 1 else tuple(declared))
+    if mask_form == 0 and declared:
+        raise core.Infeasible()
+    log = []
+
+    def op(*args, **kw):
+        log.append(args)
+        vals = []
+        for a in args:
+            vals.extend(flat(a))
+        return ctx.apply_uf('OP%d' % len(vals), vals)
+    vop = tools.vectorize(op, constants=mask)
+    L = 2
+    results = []
+    for call in range(2):
+        kinds = []
+        for p in range(arity):
+            if p in declared:
+                kinds.append('const_array')
+            else:
+                kinds.append(('scalar', 'batch1d')[ctx.choice('call%d_kind%d' % (call, p), 2)])
+        inputs, rows = [], []
+        for p, k in enumerate(kinds):
+            v, r = mk_input(ctx, 10 * call + p, k, L)
+            inputs.append(v)
+            rows.append(r)
+        del log[:]
+        out = vop(*inputs)
+        n = L if any(r is not None for r in rows) else 1
+        ctx.claim('call%d_length' % call, len(out) == n and len(log) == n)
+        for i in range(min(n, len(log))):
+            exp = []
+            for p in range(arity):
+                exp.extend(flat(inputs[p]) if rows[p] is None else rows[p][i])
+            ctx.claim('call%d_entry_%d_is_operation_of_row_%d' % (call, i, i),
+                      np.ndim(out[i]) == 0 and close(out[i], ctx.apply_uf('OP%d' % len(exp), exp)))
+    if mask is not None:
+        ctx.claim('callers_constants_mask_not_modified', list(mask) == declared)
+
+
 # ---------------------------------------------------------------- external operation
 
 class FakeRS:
@@ -224,6 +269,8 @@ HARNESSES = [
     H('vectorize_arity1', h_vectorize, dict(arity=1), bounds='1 input: 5 kinds x length 1..3 x batch_size modes x dtype {None,False}'),
     H('vectorize_arity2', h_vectorize, dict(arity=2), bounds='2 inputs: 25 kind pairs x length 1..3 x batch_size modes x dtype'),
     H('vectorize_arity3', h_vectorize, dict(arity=3), bounds='3 inputs', tiers=('thorough',)),
+    H('vectorize_history_arity2', h_vectorize_history, dict(arity=2),
+      bounds='two consecutive calls of one vectorised operation, 2 inputs each scalar or 1-D batch or declared constant; mask None / list / tuple'),
     H('external_meta_L2', h_external, dict(L=2, with_meta=True), bounds='vectorised external command, 2 rows, node uses meta'),
     H('external_meta_L3', h_external, dict(L=3, with_meta=True, stream_len=6), bounds='3 rows, node uses meta', tiers=('thorough',)),
     H('external_nometa_L2', h_external, dict(L=2, with_meta=False), bounds='vectorised external command, 2 rows, node without meta',
